@@ -214,6 +214,10 @@ pub fn run(ctx: &Ctx) -> Report {
     let grid: Vec<(usize, bool)> = (0..=12).flat_map(|n| [(n, false), (n, true)]).collect();
     let all_budgets: Vec<usize> = (1..=30).collect();
     rep.absorb(par_cases(&grid, |(n, osc), l| judge_src(&c02::chain_prog(*n, *osc).render(), "skeleton-chain", None, &all_budgets, l)));
+    let sp = c02::scope_parent_progs();
+    rep.absorb(par_cases(&sp, |p, l| judge_src(&p.render(), "scope-parent-directed", None, &budgets, l)));
+    let lb = c02::late_bool_progs();
+    rep.absorb(par_cases(&lb, |p, l| judge_src(&p.render(), "late-boolean-directed", None, &budgets, l)));
     // corpus
     let cases = corpus::load(&ctx.repo);
     rep.extra("corpus_files", json!(cases.len()));
